@@ -6,34 +6,34 @@ namespace ImathVerif.Gen
 open ImathVerif
 
 /-- extracted from the C++ template at T = Sym; 4 path(s) -/
-def LineAlgo.closestPoints {α : Type} [Add α] [Sub α] [Mul α] [Div α] [Neg α] [LT α] [LE α] [DecidableLT α] [DecidableLE α] [OfNat α 0] [OfNat α 1] (tmax : α) (l1 : Line3 α) (l2 : Line3 α) : (Bool × (V3 α) × (V3 α)) :=
+def LineAlgo.closestPoints {α : Type} [Add α] [Sub α] [Mul α] [Div α] [Neg α] [LT α] [DecidableLT α] [OfNat α 0] [OfNat α 1] (tmax : α) (l1 : Line3 α) (l2 : Line3 α) : (Bool × (V3 α) × (V3 α)) :=
   let t56 := (l1.pos.z - l2.pos.z)
   let t57 := (l1.pos.y - l2.pos.y)
   let t58 := (l1.pos.x - l2.pos.x)
   let t63 := (((l1.dir.x * t58) + (l1.dir.y * t57)) + (l1.dir.z * t56))
   let t73 := (((l2.dir.x * t58) + (l2.dir.y * t57)) + (l2.dir.z * t56))
-  let t134 := (((l1.dir.x * l2.dir.x) + (l1.dir.y * l2.dir.y)) + (l1.dir.z * l2.dir.z))
-  let t136 := ((t134 * t73) - t63)
-  let t138 := (t73 - (t134 * t63))
-  let t140 := ((1 : α) - (t134 * t134))
-  let t141 := (sabs t140)
-  let t142 := (t136 / t140)
-  let t146 := (l1.pos.z + (l1.dir.z * t142))
-  let t147 := (l1.pos.y + (l1.dir.y * t142))
-  let t148 := (l1.pos.x + (l1.dir.x * t142))
-  let t149 := (t138 / t140)
-  let t153 := (l2.pos.z + (l2.dir.z * t149))
-  let t154 := (l2.pos.y + (l2.dir.y * t149))
-  let t155 := (l2.pos.x + (l2.dir.x * t149))
-  let t156 := (tmax * t141)
-  let t157 := (sabs t136)
-  let t158 := (sabs t138)
-  if (1 : α) < t141 then
-    (true, ⟨t148, t147, t146⟩, ⟨t155, t154, t153⟩)
+  let t214 := (((l1.dir.x * l2.dir.x) + (l1.dir.y * l2.dir.y)) + (l1.dir.z * l2.dir.z))
+  let t216 := ((t214 * t73) - t63)
+  let t218 := (t73 - (t214 * t63))
+  let t220 := ((1 : α) - (t214 * t214))
+  let t221 := (sabs t220)
+  let t222 := (t216 / t220)
+  let t226 := (l1.pos.z + (l1.dir.z * t222))
+  let t227 := (l1.pos.y + (l1.dir.y * t222))
+  let t228 := (l1.pos.x + (l1.dir.x * t222))
+  let t229 := (t218 / t220)
+  let t233 := (l2.pos.z + (l2.dir.z * t229))
+  let t234 := (l2.pos.y + (l2.dir.y * t229))
+  let t235 := (l2.pos.x + (l2.dir.x * t229))
+  let t236 := (tmax * t221)
+  let t237 := (sabs t216)
+  let t238 := (sabs t218)
+  if (1 : α) < t221 then
+    (true, ⟨t228, t227, t226⟩, ⟨t235, t234, t233⟩)
   else
-    if t157 < t156 then
-      if t158 ≤ t156 then
-        (true, ⟨t148, t147, t146⟩, ⟨t155, t154, t153⟩)
+    if t237 < t236 then
+      if t238 < t236 then
+        (true, ⟨t228, t227, t226⟩, ⟨t235, t234, t233⟩)
       else
         (false, ⟨(0 : α), (0 : α), (0 : α)⟩, ⟨(0 : α), (0 : α), (0 : α)⟩)
     else
@@ -41,260 +41,257 @@ def LineAlgo.closestPoints {α : Type} [Add α] [Sub α] [Mul α] [Div α] [Neg 
 
 /-- extracted from the C++ template at T = Sym; 50 path(s) -/
 def LineAlgo.intersect {α : Type} [Add α] [Sub α] [Mul α] [Div α] [Neg α] [LT α] [LE α] [DecidableLT α] [DecidableLE α] [DecidableEq α] [OfNat α 0] [OfNat α 1] [OfNat α 2] (tmin : α) (tmax : α) (sqrt : α → α) (l : Line3 α) (v0 : V3 α) (v1 : V3 α) (v2 : V3 α) : (Bool × (V3 α) × (V3 α) × Bool) :=
-  let t168 := (v1.z - v0.z)
-  let t169 := (v1.y - v0.y)
-  let t170 := (v1.x - v0.x)
-  let t171 := (v2.z - v1.z)
-  let t172 := (v2.y - v1.y)
-  let t173 := (v2.x - v1.x)
-  let t176 := ((t173 * t169) - (t172 * t170))
-  let t179 := ((t171 * t170) - (t173 * t168))
-  let t182 := ((t172 * t168) - (t171 * t169))
-  let t183 := (V3.length tmin tmax sqrt ⟨t182, t179, t176⟩)
-  let t184 := (t182 / t183)
-  let t185 := (t179 / t183)
-  let t186 := (t176 / t183)
-  let t194 := (((t184 * (v0.x - l.pos.x)) + (t185 * (v0.y - l.pos.y))) + (t186 * (v0.z - l.pos.z)))
-  let t199 := (((t184 * l.dir.x) + (t185 * l.dir.y)) + (t186 * l.dir.z))
-  let t200 := (sabs t199)
-  let t201 := (t194 / t199)
-  let t205 := (l.pos.z + (l.dir.z * t201))
-  let t206 := (l.pos.y + (l.dir.y * t201))
-  let t207 := (l.pos.x + (l.dir.x * t201))
-  let t208 := (V3.length tmin tmax sqrt ⟨t170, t169, t168⟩)
-  let t209 := (t205 - v0.z)
-  let t210 := (t206 - v0.y)
-  let t211 := (t207 - v0.x)
-  let t212 := (v2.z - v0.z)
-  let t213 := (v2.y - v0.y)
-  let t214 := (v2.x - v0.x)
-  let t220 := ((0 : α) * ((((0 : α) * t211) + ((0 : α) * t210)) + ((0 : α) * t209)))
-  let t229 := ((0 : α) * ((((0 : α) * t214) + ((0 : α) * t213)) + ((0 : α) * t212)))
-  let t230 := (t212 - t229)
-  let t231 := (t213 - t229)
-  let t232 := (t214 - t229)
-  let t237 := ((((t211 - t220) * t232) + ((t210 - t220) * t231)) + ((t209 - t220) * t230))
-  let t242 := (((t232 * t232) + (t231 * t231)) + (t230 * t230))
-  let t243 := (t237 / t242)
-  let t244 := (V3.length tmin tmax sqrt ⟨t173, t172, t171⟩)
-  let t245 := (t205 - v1.z)
-  let t246 := (t206 - v1.y)
-  let t247 := (t207 - v1.x)
-  let t248 := (v0.z - v1.z)
-  let t249 := (v0.y - v1.y)
-  let t250 := (v0.x - v1.x)
-  let t256 := ((0 : α) * ((((0 : α) * t247) + ((0 : α) * t246)) + ((0 : α) * t245)))
-  let t265 := ((0 : α) * ((((0 : α) * t250) + ((0 : α) * t249)) + ((0 : α) * t248)))
-  let t266 := (t248 - t265)
-  let t267 := (t249 - t265)
-  let t268 := (t250 - t265)
-  let t273 := ((((t247 - t256) * t268) + ((t246 - t256) * t267)) + ((t245 - t256) * t266))
-  let t278 := (((t268 * t268) + (t267 * t267)) + (t266 * t266))
-  let t279 := (t273 / t278)
-  let t280 := ((1 : α) - t279)
-  let t281 := (t280 - t243)
-  let t286 := (((l.dir.x * t184) + (l.dir.y * t185)) + (l.dir.z * t186))
-  let t287 := (t171 / t244)
-  let t288 := (t172 / t244)
-  let t289 := (t173 / t244)
-  let t294 := (((t289 * t247) + (t288 * t246)) + (t287 * t245))
-  let t305 := (((t289 * t250) + (t288 * t249)) + (t287 * t248))
-  let t309 := (t248 - (t287 * t305))
-  let t310 := (t249 - (t288 * t305))
-  let t311 := (t250 - (t289 * t305))
-  let t316 := ((((t247 - (t289 * t294)) * t311) + ((t246 - (t288 * t294)) * t310)) + ((t245 - (t287 * t294)) * t309))
-  let t321 := (((t311 * t311) + (t310 * t310)) + (t309 * t309))
-  let t322 := (t316 / t321)
-  let t323 := ((1 : α) - t322)
-  let t324 := (t323 - t243)
-  let t325 := (t168 / t208)
-  let t326 := (t169 / t208)
-  let t327 := (t170 / t208)
-  let t332 := (((t327 * t211) + (t326 * t210)) + (t325 * t209))
-  let t343 := (((t327 * t214) + (t326 * t213)) + (t325 * t212))
-  let t347 := (t212 - (t325 * t343))
-  let t348 := (t213 - (t326 * t343))
-  let t349 := (t214 - (t327 * t343))
-  let t354 := ((((t211 - (t327 * t332)) * t349) + ((t210 - (t326 * t332)) * t348)) + ((t209 - (t325 * t332)) * t347))
-  let t359 := (((t349 * t349) + (t348 * t348)) + (t347 * t347))
-  let t360 := (t354 / t359)
-  let t361 := (t280 - t360)
-  let t362 := (t323 - t360)
-  let t363 := (tmax * t200)
-  let t364 := (sabs t194)
-  if t183 = (0 : α) then
+  let t248 := (v1.z - v0.z)
+  let t249 := (v1.y - v0.y)
+  let t250 := (v1.x - v0.x)
+  let t251 := (v2.z - v1.z)
+  let t252 := (v2.y - v1.y)
+  let t253 := (v2.x - v1.x)
+  let t256 := ((t253 * t249) - (t252 * t250))
+  let t259 := ((t251 * t250) - (t253 * t248))
+  let t262 := ((t252 * t248) - (t251 * t249))
+  let t263 := (V3.length tmin tmax sqrt ⟨t262, t259, t256⟩)
+  let t264 := (t262 / t263)
+  let t265 := (t259 / t263)
+  let t266 := (t256 / t263)
+  let t279 := (((t264 * l.dir.x) + (t265 * l.dir.y)) + (t266 * l.dir.z))
+  let t280 := (sabs t279)
+  let t281 := ((((t264 * (v0.x - l.pos.x)) + (t265 * (v0.y - l.pos.y))) + (t266 * (v0.z - l.pos.z))) / t279)
+  let t285 := (l.pos.z + (l.dir.z * t281))
+  let t286 := (l.pos.y + (l.dir.y * t281))
+  let t287 := (l.pos.x + (l.dir.x * t281))
+  let t288 := (V3.length tmin tmax sqrt ⟨t250, t249, t248⟩)
+  let t289 := (t285 - v0.z)
+  let t290 := (t286 - v0.y)
+  let t291 := (t287 - v0.x)
+  let t292 := (v2.z - v0.z)
+  let t293 := (v2.y - v0.y)
+  let t294 := (v2.x - v0.x)
+  let t300 := ((0 : α) * ((((0 : α) * t291) + ((0 : α) * t290)) + ((0 : α) * t289)))
+  let t309 := ((0 : α) * ((((0 : α) * t294) + ((0 : α) * t293)) + ((0 : α) * t292)))
+  let t310 := (t292 - t309)
+  let t311 := (t293 - t309)
+  let t312 := (t294 - t309)
+  let t317 := ((((t291 - t300) * t312) + ((t290 - t300) * t311)) + ((t289 - t300) * t310))
+  let t322 := (((t312 * t312) + (t311 * t311)) + (t310 * t310))
+  let t323 := (t317 / t322)
+  let t324 := (V3.length tmin tmax sqrt ⟨t253, t252, t251⟩)
+  let t325 := (t285 - v1.z)
+  let t326 := (t286 - v1.y)
+  let t327 := (t287 - v1.x)
+  let t328 := (v0.z - v1.z)
+  let t329 := (v0.y - v1.y)
+  let t330 := (v0.x - v1.x)
+  let t336 := ((0 : α) * ((((0 : α) * t327) + ((0 : α) * t326)) + ((0 : α) * t325)))
+  let t345 := ((0 : α) * ((((0 : α) * t330) + ((0 : α) * t329)) + ((0 : α) * t328)))
+  let t346 := (t328 - t345)
+  let t347 := (t329 - t345)
+  let t348 := (t330 - t345)
+  let t353 := ((((t327 - t336) * t348) + ((t326 - t336) * t347)) + ((t325 - t336) * t346))
+  let t358 := (((t348 * t348) + (t347 * t347)) + (t346 * t346))
+  let t359 := (t353 / t358)
+  let t360 := ((1 : α) - t359)
+  let t361 := (t360 - t323)
+  let t366 := (((l.dir.x * t264) + (l.dir.y * t265)) + (l.dir.z * t266))
+  let t367 := (t251 / t324)
+  let t368 := (t252 / t324)
+  let t369 := (t253 / t324)
+  let t374 := (((t369 * t327) + (t368 * t326)) + (t367 * t325))
+  let t385 := (((t369 * t330) + (t368 * t329)) + (t367 * t328))
+  let t389 := (t328 - (t367 * t385))
+  let t390 := (t329 - (t368 * t385))
+  let t391 := (t330 - (t369 * t385))
+  let t396 := ((((t327 - (t369 * t374)) * t391) + ((t326 - (t368 * t374)) * t390)) + ((t325 - (t367 * t374)) * t389))
+  let t401 := (((t391 * t391) + (t390 * t390)) + (t389 * t389))
+  let t402 := (t396 / t401)
+  let t403 := ((1 : α) - t402)
+  let t404 := (t403 - t323)
+  let t405 := (t248 / t288)
+  let t406 := (t249 / t288)
+  let t407 := (t250 / t288)
+  let t412 := (((t407 * t291) + (t406 * t290)) + (t405 * t289))
+  let t423 := (((t407 * t294) + (t406 * t293)) + (t405 * t292))
+  let t427 := (t292 - (t405 * t423))
+  let t428 := (t293 - (t406 * t423))
+  let t429 := (t294 - (t407 * t423))
+  let t434 := ((((t291 - (t407 * t412)) * t429) + ((t290 - (t406 * t412)) * t428)) + ((t289 - (t405 * t412)) * t427))
+  let t439 := (((t429 * t429) + (t428 * t428)) + (t427 * t427))
+  let t440 := (t434 / t439)
+  let t441 := (t360 - t440)
+  let t442 := (t403 - t440)
+  if t263 = (0 : α) then
     (false, ⟨(0 : α), (0 : α), (0 : α)⟩, ⟨(0 : α), (0 : α), (0 : α)⟩, false)
   else
-    if (1 : α) < t200 then
-      if t208 = (0 : α) then
-        if (0 : α) ≤ t237 then
-          if t237 ≤ t242 then
-            if t244 = (0 : α) then
-              if (0 : α) ≤ t273 then
-                if t273 ≤ t278 then
-                  if t281 < (0 : α) then
-                    (false, ⟨t207, t206, t205⟩, ⟨t279, t281, t243⟩, false)
-                  else
-                    if t286 < (0 : α) then
-                      (true, ⟨t207, t206, t205⟩, ⟨t279, t281, t243⟩, true)
-                    else
-                      (true, ⟨t207, t206, t205⟩, ⟨t279, t281, t243⟩, false)
-                else
-                  (false, ⟨t207, t206, t205⟩, ⟨(0 : α), (0 : α), t243⟩, false)
-              else
-                (false, ⟨t207, t206, t205⟩, ⟨(0 : α), (0 : α), t243⟩, false)
-            else
-              if (0 : α) ≤ t316 then
-                if t316 ≤ t321 then
-                  if t324 < (0 : α) then
-                    (false, ⟨t207, t206, t205⟩, ⟨t322, t324, t243⟩, false)
-                  else
-                    if t286 < (0 : α) then
-                      (true, ⟨t207, t206, t205⟩, ⟨t322, t324, t243⟩, true)
-                    else
-                      (true, ⟨t207, t206, t205⟩, ⟨t322, t324, t243⟩, false)
-                else
-                  (false, ⟨t207, t206, t205⟩, ⟨(0 : α), (0 : α), t243⟩, false)
-              else
-                (false, ⟨t207, t206, t205⟩, ⟨(0 : α), (0 : α), t243⟩, false)
-          else
-            (false, ⟨t207, t206, t205⟩, ⟨(0 : α), (0 : α), (0 : α)⟩, false)
-        else
-          (false, ⟨t207, t206, t205⟩, ⟨(0 : α), (0 : α), (0 : α)⟩, false)
-      else
-        if (0 : α) ≤ t354 then
-          if t354 ≤ t359 then
-            if t244 = (0 : α) then
-              if (0 : α) ≤ t273 then
-                if t273 ≤ t278 then
+    if (1 : α) < t280 then
+      if t288 = (0 : α) then
+        if (0 : α) ≤ t317 then
+          if t317 ≤ t322 then
+            if t324 = (0 : α) then
+              if (0 : α) ≤ t353 then
+                if t353 ≤ t358 then
                   if t361 < (0 : α) then
-                    (false, ⟨t207, t206, t205⟩, ⟨t279, t361, t360⟩, false)
+                    (false, ⟨t287, t286, t285⟩, ⟨t359, t361, t323⟩, false)
                   else
-                    if t286 < (0 : α) then
-                      (true, ⟨t207, t206, t205⟩, ⟨t279, t361, t360⟩, true)
+                    if t366 < (0 : α) then
+                      (true, ⟨t287, t286, t285⟩, ⟨t359, t361, t323⟩, true)
                     else
-                      (true, ⟨t207, t206, t205⟩, ⟨t279, t361, t360⟩, false)
+                      (true, ⟨t287, t286, t285⟩, ⟨t359, t361, t323⟩, false)
                 else
-                  (false, ⟨t207, t206, t205⟩, ⟨(0 : α), (0 : α), t360⟩, false)
+                  (false, ⟨t287, t286, t285⟩, ⟨(0 : α), (0 : α), t323⟩, false)
               else
-                (false, ⟨t207, t206, t205⟩, ⟨(0 : α), (0 : α), t360⟩, false)
+                (false, ⟨t287, t286, t285⟩, ⟨(0 : α), (0 : α), t323⟩, false)
             else
-              if (0 : α) ≤ t316 then
-                if t316 ≤ t321 then
-                  if t362 < (0 : α) then
-                    (false, ⟨t207, t206, t205⟩, ⟨t322, t362, t360⟩, false)
+              if (0 : α) ≤ t396 then
+                if t396 ≤ t401 then
+                  if t404 < (0 : α) then
+                    (false, ⟨t287, t286, t285⟩, ⟨t402, t404, t323⟩, false)
                   else
-                    if t286 < (0 : α) then
-                      (true, ⟨t207, t206, t205⟩, ⟨t322, t362, t360⟩, true)
+                    if t366 < (0 : α) then
+                      (true, ⟨t287, t286, t285⟩, ⟨t402, t404, t323⟩, true)
                     else
-                      (true, ⟨t207, t206, t205⟩, ⟨t322, t362, t360⟩, false)
+                      (true, ⟨t287, t286, t285⟩, ⟨t402, t404, t323⟩, false)
                 else
-                  (false, ⟨t207, t206, t205⟩, ⟨(0 : α), (0 : α), t360⟩, false)
+                  (false, ⟨t287, t286, t285⟩, ⟨(0 : α), (0 : α), t323⟩, false)
               else
-                (false, ⟨t207, t206, t205⟩, ⟨(0 : α), (0 : α), t360⟩, false)
+                (false, ⟨t287, t286, t285⟩, ⟨(0 : α), (0 : α), t323⟩, false)
           else
-            (false, ⟨t207, t206, t205⟩, ⟨(0 : α), (0 : α), (0 : α)⟩, false)
+            (false, ⟨t287, t286, t285⟩, ⟨(0 : α), (0 : α), (0 : α)⟩, false)
         else
-          (false, ⟨t207, t206, t205⟩, ⟨(0 : α), (0 : α), (0 : α)⟩, false)
+          (false, ⟨t287, t286, t285⟩, ⟨(0 : α), (0 : α), (0 : α)⟩, false)
+      else
+        if (0 : α) ≤ t434 then
+          if t434 ≤ t439 then
+            if t324 = (0 : α) then
+              if (0 : α) ≤ t353 then
+                if t353 ≤ t358 then
+                  if t441 < (0 : α) then
+                    (false, ⟨t287, t286, t285⟩, ⟨t359, t441, t440⟩, false)
+                  else
+                    if t366 < (0 : α) then
+                      (true, ⟨t287, t286, t285⟩, ⟨t359, t441, t440⟩, true)
+                    else
+                      (true, ⟨t287, t286, t285⟩, ⟨t359, t441, t440⟩, false)
+                else
+                  (false, ⟨t287, t286, t285⟩, ⟨(0 : α), (0 : α), t440⟩, false)
+              else
+                (false, ⟨t287, t286, t285⟩, ⟨(0 : α), (0 : α), t440⟩, false)
+            else
+              if (0 : α) ≤ t396 then
+                if t396 ≤ t401 then
+                  if t442 < (0 : α) then
+                    (false, ⟨t287, t286, t285⟩, ⟨t402, t442, t440⟩, false)
+                  else
+                    if t366 < (0 : α) then
+                      (true, ⟨t287, t286, t285⟩, ⟨t402, t442, t440⟩, true)
+                    else
+                      (true, ⟨t287, t286, t285⟩, ⟨t402, t442, t440⟩, false)
+                else
+                  (false, ⟨t287, t286, t285⟩, ⟨(0 : α), (0 : α), t440⟩, false)
+              else
+                (false, ⟨t287, t286, t285⟩, ⟨(0 : α), (0 : α), t440⟩, false)
+          else
+            (false, ⟨t287, t286, t285⟩, ⟨(0 : α), (0 : α), (0 : α)⟩, false)
+        else
+          (false, ⟨t287, t286, t285⟩, ⟨(0 : α), (0 : α), (0 : α)⟩, false)
     else
-      if t364 < t363 then
-        if t208 = (0 : α) then
-          if (0 : α) ≤ t237 then
-            if t237 ≤ t242 then
-              if t244 = (0 : α) then
-                if (0 : α) ≤ t273 then
-                  if t273 ≤ t278 then
-                    if t281 < (0 : α) then
-                      (false, ⟨t207, t206, t205⟩, ⟨t279, t281, t243⟩, false)
-                    else
-                      if t286 < (0 : α) then
-                        (true, ⟨t207, t206, t205⟩, ⟨t279, t281, t243⟩, true)
-                      else
-                        (true, ⟨t207, t206, t205⟩, ⟨t279, t281, t243⟩, false)
-                  else
-                    (false, ⟨t207, t206, t205⟩, ⟨(0 : α), (0 : α), t243⟩, false)
-                else
-                  (false, ⟨t207, t206, t205⟩, ⟨(0 : α), (0 : α), t243⟩, false)
-              else
-                if (0 : α) ≤ t316 then
-                  if t316 ≤ t321 then
-                    if t324 < (0 : α) then
-                      (false, ⟨t207, t206, t205⟩, ⟨t322, t324, t243⟩, false)
-                    else
-                      if t286 < (0 : α) then
-                        (true, ⟨t207, t206, t205⟩, ⟨t322, t324, t243⟩, true)
-                      else
-                        (true, ⟨t207, t206, t205⟩, ⟨t322, t324, t243⟩, false)
-                  else
-                    (false, ⟨t207, t206, t205⟩, ⟨(0 : α), (0 : α), t243⟩, false)
-                else
-                  (false, ⟨t207, t206, t205⟩, ⟨(0 : α), (0 : α), t243⟩, false)
-            else
-              (false, ⟨t207, t206, t205⟩, ⟨(0 : α), (0 : α), (0 : α)⟩, false)
-          else
-            (false, ⟨t207, t206, t205⟩, ⟨(0 : α), (0 : α), (0 : α)⟩, false)
-        else
-          if (0 : α) ≤ t354 then
-            if t354 ≤ t359 then
-              if t244 = (0 : α) then
-                if (0 : α) ≤ t273 then
-                  if t273 ≤ t278 then
+      if (0 : α) < t280 then
+        if t288 = (0 : α) then
+          if (0 : α) ≤ t317 then
+            if t317 ≤ t322 then
+              if t324 = (0 : α) then
+                if (0 : α) ≤ t353 then
+                  if t353 ≤ t358 then
                     if t361 < (0 : α) then
-                      (false, ⟨t207, t206, t205⟩, ⟨t279, t361, t360⟩, false)
+                      (false, ⟨t287, t286, t285⟩, ⟨t359, t361, t323⟩, false)
                     else
-                      if t286 < (0 : α) then
-                        (true, ⟨t207, t206, t205⟩, ⟨t279, t361, t360⟩, true)
+                      if t366 < (0 : α) then
+                        (true, ⟨t287, t286, t285⟩, ⟨t359, t361, t323⟩, true)
                       else
-                        (true, ⟨t207, t206, t205⟩, ⟨t279, t361, t360⟩, false)
+                        (true, ⟨t287, t286, t285⟩, ⟨t359, t361, t323⟩, false)
                   else
-                    (false, ⟨t207, t206, t205⟩, ⟨(0 : α), (0 : α), t360⟩, false)
+                    (false, ⟨t287, t286, t285⟩, ⟨(0 : α), (0 : α), t323⟩, false)
                 else
-                  (false, ⟨t207, t206, t205⟩, ⟨(0 : α), (0 : α), t360⟩, false)
+                  (false, ⟨t287, t286, t285⟩, ⟨(0 : α), (0 : α), t323⟩, false)
               else
-                if (0 : α) ≤ t316 then
-                  if t316 ≤ t321 then
-                    if t362 < (0 : α) then
-                      (false, ⟨t207, t206, t205⟩, ⟨t322, t362, t360⟩, false)
+                if (0 : α) ≤ t396 then
+                  if t396 ≤ t401 then
+                    if t404 < (0 : α) then
+                      (false, ⟨t287, t286, t285⟩, ⟨t402, t404, t323⟩, false)
                     else
-                      if t286 < (0 : α) then
-                        (true, ⟨t207, t206, t205⟩, ⟨t322, t362, t360⟩, true)
+                      if t366 < (0 : α) then
+                        (true, ⟨t287, t286, t285⟩, ⟨t402, t404, t323⟩, true)
                       else
-                        (true, ⟨t207, t206, t205⟩, ⟨t322, t362, t360⟩, false)
+                        (true, ⟨t287, t286, t285⟩, ⟨t402, t404, t323⟩, false)
                   else
-                    (false, ⟨t207, t206, t205⟩, ⟨(0 : α), (0 : α), t360⟩, false)
+                    (false, ⟨t287, t286, t285⟩, ⟨(0 : α), (0 : α), t323⟩, false)
                 else
-                  (false, ⟨t207, t206, t205⟩, ⟨(0 : α), (0 : α), t360⟩, false)
+                  (false, ⟨t287, t286, t285⟩, ⟨(0 : α), (0 : α), t323⟩, false)
             else
-              (false, ⟨t207, t206, t205⟩, ⟨(0 : α), (0 : α), (0 : α)⟩, false)
+              (false, ⟨t287, t286, t285⟩, ⟨(0 : α), (0 : α), (0 : α)⟩, false)
           else
-            (false, ⟨t207, t206, t205⟩, ⟨(0 : α), (0 : α), (0 : α)⟩, false)
+            (false, ⟨t287, t286, t285⟩, ⟨(0 : α), (0 : α), (0 : α)⟩, false)
+        else
+          if (0 : α) ≤ t434 then
+            if t434 ≤ t439 then
+              if t324 = (0 : α) then
+                if (0 : α) ≤ t353 then
+                  if t353 ≤ t358 then
+                    if t441 < (0 : α) then
+                      (false, ⟨t287, t286, t285⟩, ⟨t359, t441, t440⟩, false)
+                    else
+                      if t366 < (0 : α) then
+                        (true, ⟨t287, t286, t285⟩, ⟨t359, t441, t440⟩, true)
+                      else
+                        (true, ⟨t287, t286, t285⟩, ⟨t359, t441, t440⟩, false)
+                  else
+                    (false, ⟨t287, t286, t285⟩, ⟨(0 : α), (0 : α), t440⟩, false)
+                else
+                  (false, ⟨t287, t286, t285⟩, ⟨(0 : α), (0 : α), t440⟩, false)
+              else
+                if (0 : α) ≤ t396 then
+                  if t396 ≤ t401 then
+                    if t442 < (0 : α) then
+                      (false, ⟨t287, t286, t285⟩, ⟨t402, t442, t440⟩, false)
+                    else
+                      if t366 < (0 : α) then
+                        (true, ⟨t287, t286, t285⟩, ⟨t402, t442, t440⟩, true)
+                      else
+                        (true, ⟨t287, t286, t285⟩, ⟨t402, t442, t440⟩, false)
+                  else
+                    (false, ⟨t287, t286, t285⟩, ⟨(0 : α), (0 : α), t440⟩, false)
+                else
+                  (false, ⟨t287, t286, t285⟩, ⟨(0 : α), (0 : α), t440⟩, false)
+            else
+              (false, ⟨t287, t286, t285⟩, ⟨(0 : α), (0 : α), (0 : α)⟩, false)
+          else
+            (false, ⟨t287, t286, t285⟩, ⟨(0 : α), (0 : α), (0 : α)⟩, false)
       else
         (false, ⟨(0 : α), (0 : α), (0 : α)⟩, ⟨(0 : α), (0 : α), (0 : α)⟩, false)
 
 /-- extracted from the C++ template at T = Sym; 4 path(s) -/
 def LineAlgo.closestVertex {α : Type} [Add α] [Sub α] [Mul α] [LT α] [DecidableLT α] (v0 : V3 α) (v1 : V3 α) (v2 : V3 α) (l : Line3 α) : (V3 α) :=
-  let t369 := ((((v0.x - l.pos.x) * l.dir.x) + ((v0.y - l.pos.y) * l.dir.y)) + ((v0.z - l.pos.z) * l.dir.z))
-  let t376 := (v0.z - ((t369 * l.dir.z) + l.pos.z))
-  let t377 := (v0.y - ((t369 * l.dir.y) + l.pos.y))
-  let t378 := (v0.x - ((t369 * l.dir.x) + l.pos.x))
-  let t383 := (((t378 * t378) + (t377 * t377)) + (t376 * t376))
-  let t391 := ((((v1.x - l.pos.x) * l.dir.x) + ((v1.y - l.pos.y) * l.dir.y)) + ((v1.z - l.pos.z) * l.dir.z))
-  let t398 := (v1.z - ((t391 * l.dir.z) + l.pos.z))
-  let t399 := (v1.y - ((t391 * l.dir.y) + l.pos.y))
-  let t400 := (v1.x - ((t391 * l.dir.x) + l.pos.x))
-  let t405 := (((t400 * t400) + (t399 * t399)) + (t398 * t398))
-  let t413 := ((((v2.x - l.pos.x) * l.dir.x) + ((v2.y - l.pos.y) * l.dir.y)) + ((v2.z - l.pos.z) * l.dir.z))
-  let t420 := (v2.z - ((t413 * l.dir.z) + l.pos.z))
-  let t421 := (v2.y - ((t413 * l.dir.y) + l.pos.y))
-  let t422 := (v2.x - ((t413 * l.dir.x) + l.pos.x))
-  let t427 := (((t422 * t422) + (t421 * t421)) + (t420 * t420))
-  if t405 < t383 then
-    if t427 < t405 then
+  let t447 := ((((v0.x - l.pos.x) * l.dir.x) + ((v0.y - l.pos.y) * l.dir.y)) + ((v0.z - l.pos.z) * l.dir.z))
+  let t454 := (v0.z - ((t447 * l.dir.z) + l.pos.z))
+  let t455 := (v0.y - ((t447 * l.dir.y) + l.pos.y))
+  let t456 := (v0.x - ((t447 * l.dir.x) + l.pos.x))
+  let t461 := (((t456 * t456) + (t455 * t455)) + (t454 * t454))
+  let t469 := ((((v1.x - l.pos.x) * l.dir.x) + ((v1.y - l.pos.y) * l.dir.y)) + ((v1.z - l.pos.z) * l.dir.z))
+  let t476 := (v1.z - ((t469 * l.dir.z) + l.pos.z))
+  let t477 := (v1.y - ((t469 * l.dir.y) + l.pos.y))
+  let t478 := (v1.x - ((t469 * l.dir.x) + l.pos.x))
+  let t483 := (((t478 * t478) + (t477 * t477)) + (t476 * t476))
+  let t491 := ((((v2.x - l.pos.x) * l.dir.x) + ((v2.y - l.pos.y) * l.dir.y)) + ((v2.z - l.pos.z) * l.dir.z))
+  let t498 := (v2.z - ((t491 * l.dir.z) + l.pos.z))
+  let t499 := (v2.y - ((t491 * l.dir.y) + l.pos.y))
+  let t500 := (v2.x - ((t491 * l.dir.x) + l.pos.x))
+  let t505 := (((t500 * t500) + (t499 * t499)) + (t498 * t498))
+  if t483 < t461 then
+    if t505 < t483 then
       ⟨v2.x, v2.y, v2.z⟩
     else
       ⟨v1.x, v1.y, v1.z⟩
   else
-    if t427 < t383 then
+    if t505 < t461 then
       ⟨v2.x, v2.y, v2.z⟩
     else
       ⟨v0.x, v0.y, v0.z⟩
@@ -305,228 +302,228 @@ def LineAlgo.rotatePoint {α : Type} [Add α] [Sub α] [Mul α] [Div α] [Neg α
   let t41 := ((t37 * l.dir.z) + l.pos.z)
   let t42 := ((t37 * l.dir.y) + l.pos.y)
   let t43 := ((t37 * l.dir.x) + l.pos.x)
-  let t429 := (p.z - t41)
-  let t430 := (p.y - t42)
-  let t431 := (p.x - t43)
-  let t432 := (V3.length tmin tmax sqrt ⟨t431, t430, t429⟩)
-  let t435 := ((t431 * l.dir.y) - (t430 * l.dir.x))
-  let t438 := ((t429 * l.dir.x) - (t431 * l.dir.z))
-  let t441 := ((t430 * l.dir.z) - (t429 * l.dir.y))
-  let t442 := (V3.length tmin tmax sqrt ⟨t441, t438, t435⟩)
-  let t443 := (cos angle)
-  let t444 := (sin angle)
-  let t457 := (t41 + ((t429 * t432) * t443))
-  let t458 := (t42 + ((t430 * t432) * t443))
-  let t459 := (t43 + ((t431 * t432) * t443))
-  let t475 := (t431 / t432)
-  let t476 := (t430 / t432)
-  let t477 := (t429 / t432)
-  let t480 := ((t475 * l.dir.y) - (t476 * l.dir.x))
-  let t483 := ((t477 * l.dir.x) - (t475 * l.dir.z))
-  let t486 := ((t476 * l.dir.z) - (t477 * l.dir.y))
-  let t487 := (V3.length tmin tmax sqrt ⟨t486, t483, t480⟩)
-  let t500 := (t41 + ((t477 * t432) * t443))
-  let t501 := (t42 + ((t476 * t432) * t443))
-  let t502 := (t43 + ((t475 * t432) * t443))
-  if t432 = (0 : α) then
-    if t442 = (0 : α) then
-      ⟨(t459 + ((t441 * t432) * t444)), (t458 + ((t438 * t432) * t444)), (t457 + ((t435 * t432) * t444))⟩
+  let t507 := (p.z - t41)
+  let t508 := (p.y - t42)
+  let t509 := (p.x - t43)
+  let t510 := (V3.length tmin tmax sqrt ⟨t509, t508, t507⟩)
+  let t513 := ((t509 * l.dir.y) - (t508 * l.dir.x))
+  let t516 := ((t507 * l.dir.x) - (t509 * l.dir.z))
+  let t519 := ((t508 * l.dir.z) - (t507 * l.dir.y))
+  let t520 := (V3.length tmin tmax sqrt ⟨t519, t516, t513⟩)
+  let t521 := (cos angle)
+  let t522 := (sin angle)
+  let t535 := (t41 + ((t507 * t510) * t521))
+  let t536 := (t42 + ((t508 * t510) * t521))
+  let t537 := (t43 + ((t509 * t510) * t521))
+  let t553 := (t509 / t510)
+  let t554 := (t508 / t510)
+  let t555 := (t507 / t510)
+  let t558 := ((t553 * l.dir.y) - (t554 * l.dir.x))
+  let t561 := ((t555 * l.dir.x) - (t553 * l.dir.z))
+  let t564 := ((t554 * l.dir.z) - (t555 * l.dir.y))
+  let t565 := (V3.length tmin tmax sqrt ⟨t564, t561, t558⟩)
+  let t578 := (t41 + ((t555 * t510) * t521))
+  let t579 := (t42 + ((t554 * t510) * t521))
+  let t580 := (t43 + ((t553 * t510) * t521))
+  if t510 = (0 : α) then
+    if t520 = (0 : α) then
+      ⟨(t537 + ((t519 * t510) * t522)), (t536 + ((t516 * t510) * t522)), (t535 + ((t513 * t510) * t522))⟩
     else
-      ⟨(t459 + (((t441 / t442) * t432) * t444)), (t458 + (((t438 / t442) * t432) * t444)), (t457 + (((t435 / t442) * t432) * t444))⟩
+      ⟨(t537 + (((t519 / t520) * t510) * t522)), (t536 + (((t516 / t520) * t510) * t522)), (t535 + (((t513 / t520) * t510) * t522))⟩
   else
-    if t487 = (0 : α) then
-      ⟨(t502 + ((t486 * t432) * t444)), (t501 + ((t483 * t432) * t444)), (t500 + ((t480 * t432) * t444))⟩
+    if t565 = (0 : α) then
+      ⟨(t580 + ((t564 * t510) * t522)), (t579 + ((t561 * t510) * t522)), (t578 + ((t558 * t510) * t522))⟩
     else
-      ⟨(t502 + (((t486 / t487) * t432) * t444)), (t501 + (((t483 / t487) * t432) * t444)), (t500 + (((t480 / t487) * t432) * t444))⟩
+      ⟨(t580 + (((t564 / t565) * t510) * t522)), (t579 + (((t561 / t565) * t510) * t522)), (t578 + (((t558 / t565) * t510) * t522))⟩
 
 /-- extracted from the C++ template at T = Sym; 2 path(s) -/
 def VecAlgo2.project {α : Type} [Add α] [Mul α] [Div α] [Neg α] [LT α] [DecidableLT α] [DecidableEq α] [OfNat α 0] [OfNat α 2] (tmin : α) (tmax : α) (sqrt : α → α) (s : V2 α) (t : V2 α) : (V2 α) :=
-  let t522 := (V2.length tmin tmax sqrt ⟨s.x, s.y⟩)
-  let t526 := ((0 : α) * (((0 : α) * t.x) + ((0 : α) * t.y)))
-  let t527 := (s.y / t522)
-  let t528 := (s.x / t522)
-  let t531 := ((t528 * t.x) + (t527 * t.y))
-  if t522 = (0 : α) then
-    ⟨t526, t526⟩
+  let t600 := (V2.length tmin tmax sqrt ⟨s.x, s.y⟩)
+  let t604 := ((0 : α) * (((0 : α) * t.x) + ((0 : α) * t.y)))
+  let t605 := (s.y / t600)
+  let t606 := (s.x / t600)
+  let t609 := ((t606 * t.x) + (t605 * t.y))
+  if t600 = (0 : α) then
+    ⟨t604, t604⟩
   else
-    ⟨(t528 * t531), (t527 * t531)⟩
+    ⟨(t606 * t609), (t605 * t609)⟩
 
 /-- extracted from the C++ template at T = Sym; 2 path(s) -/
 def VecAlgo2.orthogonal {α : Type} [Add α] [Sub α] [Mul α] [Div α] [Neg α] [LT α] [DecidableLT α] [DecidableEq α] [OfNat α 0] [OfNat α 2] (tmin : α) (tmax : α) (sqrt : α → α) (s : V2 α) (t : V2 α) : (V2 α) :=
-  let t522 := (V2.length tmin tmax sqrt ⟨s.x, s.y⟩)
-  let t526 := ((0 : α) * (((0 : α) * t.x) + ((0 : α) * t.y)))
-  let t527 := (s.y / t522)
-  let t528 := (s.x / t522)
-  let t531 := ((t528 * t.x) + (t527 * t.y))
-  if t522 = (0 : α) then
-    ⟨(t.x - t526), (t.y - t526)⟩
+  let t600 := (V2.length tmin tmax sqrt ⟨s.x, s.y⟩)
+  let t604 := ((0 : α) * (((0 : α) * t.x) + ((0 : α) * t.y)))
+  let t605 := (s.y / t600)
+  let t606 := (s.x / t600)
+  let t609 := ((t606 * t.x) + (t605 * t.y))
+  if t600 = (0 : α) then
+    ⟨(t.x - t604), (t.y - t604)⟩
   else
-    ⟨(t.x - (t528 * t531)), (t.y - (t527 * t531))⟩
+    ⟨(t.x - (t606 * t609)), (t.y - (t605 * t609))⟩
 
 /-- extracted from the C++ template at T = Sym; 2 path(s) -/
 def VecAlgo2.reflect {α : Type} [Add α] [Sub α] [Mul α] [Div α] [Neg α] [LT α] [DecidableLT α] [DecidableEq α] [OfNat α 0] [OfNat α 2] (tmin : α) (tmax : α) (sqrt : α → α) (s : V2 α) (t : V2 α) : (V2 α) :=
-  let t538 := (V2.length tmin tmax sqrt ⟨t.x, t.y⟩)
-  let t542 := ((0 : α) * (((0 : α) * s.x) + ((0 : α) * s.y)))
-  let t550 := (t.y / t538)
-  let t551 := (t.x / t538)
-  let t554 := ((t551 * s.x) + (t550 * s.y))
-  if t538 = (0 : α) then
-    ⟨(s.x - ((2 : α) * (s.x - t542))), (s.y - ((2 : α) * (s.y - t542)))⟩
+  let t616 := (V2.length tmin tmax sqrt ⟨t.x, t.y⟩)
+  let t620 := ((0 : α) * (((0 : α) * s.x) + ((0 : α) * s.y)))
+  let t628 := (t.y / t616)
+  let t629 := (t.x / t616)
+  let t632 := ((t629 * s.x) + (t628 * s.y))
+  if t616 = (0 : α) then
+    ⟨(s.x - ((2 : α) * (s.x - t620))), (s.y - ((2 : α) * (s.y - t620)))⟩
   else
-    ⟨(s.x - ((2 : α) * (s.x - (t551 * t554)))), (s.y - ((2 : α) * (s.y - (t550 * t554))))⟩
+    ⟨(s.x - ((2 : α) * (s.x - (t629 * t632)))), (s.y - ((2 : α) * (s.y - (t628 * t632))))⟩
 
 /-- extracted from the C++ template at T = Sym; 4 path(s) -/
 def VecAlgo2.closestVertex {α : Type} [Add α] [Sub α] [Mul α] [LT α] [DecidableLT α] (v0 : V2 α) (v1 : V2 α) (v2 : V2 α) (p : V2 α) : (V2 α) :=
-  let t563 := (v0.y - p.y)
-  let t564 := (v0.x - p.x)
-  let t567 := ((t564 * t564) + (t563 * t563))
-  let t568 := (v1.y - p.y)
-  let t569 := (v1.x - p.x)
-  let t572 := ((t569 * t569) + (t568 * t568))
-  let t573 := (v2.y - p.y)
-  let t574 := (v2.x - p.x)
-  let t577 := ((t574 * t574) + (t573 * t573))
-  if t572 < t567 then
-    if t577 < t572 then
+  let t641 := (v0.y - p.y)
+  let t642 := (v0.x - p.x)
+  let t645 := ((t642 * t642) + (t641 * t641))
+  let t646 := (v1.y - p.y)
+  let t647 := (v1.x - p.x)
+  let t650 := ((t647 * t647) + (t646 * t646))
+  let t651 := (v2.y - p.y)
+  let t652 := (v2.x - p.x)
+  let t655 := ((t652 * t652) + (t651 * t651))
+  if t650 < t645 then
+    if t655 < t650 then
       ⟨v2.x, v2.y⟩
     else
       ⟨v1.x, v1.y⟩
   else
-    if t577 < t567 then
+    if t655 < t645 then
       ⟨v2.x, v2.y⟩
     else
       ⟨v0.x, v0.y⟩
 
 /-- extracted from the C++ template at T = Sym; 2 path(s) -/
 def VecAlgo3.project {α : Type} [Add α] [Mul α] [Div α] [Neg α] [LT α] [LE α] [DecidableLT α] [DecidableLE α] [DecidableEq α] [OfNat α 0] [OfNat α 2] (tmin : α) (tmax : α) (sqrt : α → α) (s : V3 α) (t : V3 α) : (V3 α) :=
-  let t580 := (V3.length tmin tmax sqrt ⟨s.x, s.y, s.z⟩)
-  let t583 := ((0 : α) * ((((0 : α) * t.x) + ((0 : α) * t.y)) + ((0 : α) * t.z)))
-  let t584 := (s.z / t580)
-  let t585 := (s.y / t580)
-  let t586 := (s.x / t580)
-  let t591 := (((t586 * t.x) + (t585 * t.y)) + (t584 * t.z))
-  if t580 = (0 : α) then
-    ⟨t583, t583, t583⟩
+  let t658 := (V3.length tmin tmax sqrt ⟨s.x, s.y, s.z⟩)
+  let t661 := ((0 : α) * ((((0 : α) * t.x) + ((0 : α) * t.y)) + ((0 : α) * t.z)))
+  let t662 := (s.z / t658)
+  let t663 := (s.y / t658)
+  let t664 := (s.x / t658)
+  let t669 := (((t664 * t.x) + (t663 * t.y)) + (t662 * t.z))
+  if t658 = (0 : α) then
+    ⟨t661, t661, t661⟩
   else
-    ⟨(t586 * t591), (t585 * t591), (t584 * t591)⟩
+    ⟨(t664 * t669), (t663 * t669), (t662 * t669)⟩
 
 /-- extracted from the C++ template at T = Sym; 2 path(s) -/
 def VecAlgo3.orthogonal {α : Type} [Add α] [Sub α] [Mul α] [Div α] [Neg α] [LT α] [LE α] [DecidableLT α] [DecidableLE α] [DecidableEq α] [OfNat α 0] [OfNat α 2] (tmin : α) (tmax : α) (sqrt : α → α) (s : V3 α) (t : V3 α) : (V3 α) :=
-  let t580 := (V3.length tmin tmax sqrt ⟨s.x, s.y, s.z⟩)
-  let t583 := ((0 : α) * ((((0 : α) * t.x) + ((0 : α) * t.y)) + ((0 : α) * t.z)))
-  let t584 := (s.z / t580)
-  let t585 := (s.y / t580)
-  let t586 := (s.x / t580)
-  let t591 := (((t586 * t.x) + (t585 * t.y)) + (t584 * t.z))
-  if t580 = (0 : α) then
-    ⟨(t.x - t583), (t.y - t583), (t.z - t583)⟩
+  let t658 := (V3.length tmin tmax sqrt ⟨s.x, s.y, s.z⟩)
+  let t661 := ((0 : α) * ((((0 : α) * t.x) + ((0 : α) * t.y)) + ((0 : α) * t.z)))
+  let t662 := (s.z / t658)
+  let t663 := (s.y / t658)
+  let t664 := (s.x / t658)
+  let t669 := (((t664 * t.x) + (t663 * t.y)) + (t662 * t.z))
+  if t658 = (0 : α) then
+    ⟨(t.x - t661), (t.y - t661), (t.z - t661)⟩
   else
-    ⟨(t.x - (t586 * t591)), (t.y - (t585 * t591)), (t.z - (t584 * t591))⟩
+    ⟨(t.x - (t664 * t669)), (t.y - (t663 * t669)), (t.z - (t662 * t669))⟩
 
 /-- extracted from the C++ template at T = Sym; 2 path(s) -/
 def VecAlgo3.reflect {α : Type} [Add α] [Sub α] [Mul α] [Div α] [Neg α] [LT α] [LE α] [DecidableLT α] [DecidableLE α] [DecidableEq α] [OfNat α 0] [OfNat α 2] (tmin : α) (tmax : α) (sqrt : α → α) (s : V3 α) (t : V3 α) : (V3 α) :=
-  let t601 := (V3.length tmin tmax sqrt ⟨t.x, t.y, t.z⟩)
-  let t604 := ((0 : α) * ((((0 : α) * s.x) + ((0 : α) * s.y)) + ((0 : α) * s.z)))
-  let t614 := (t.z / t601)
-  let t615 := (t.y / t601)
-  let t616 := (t.x / t601)
-  let t621 := (((t616 * s.x) + (t615 * s.y)) + (t614 * s.z))
-  if t601 = (0 : α) then
-    ⟨(s.x - ((2 : α) * (s.x - t604))), (s.y - ((2 : α) * (s.y - t604))), (s.z - ((2 : α) * (s.z - t604)))⟩
+  let t679 := (V3.length tmin tmax sqrt ⟨t.x, t.y, t.z⟩)
+  let t682 := ((0 : α) * ((((0 : α) * s.x) + ((0 : α) * s.y)) + ((0 : α) * s.z)))
+  let t692 := (t.z / t679)
+  let t693 := (t.y / t679)
+  let t694 := (t.x / t679)
+  let t699 := (((t694 * s.x) + (t693 * s.y)) + (t692 * s.z))
+  if t679 = (0 : α) then
+    ⟨(s.x - ((2 : α) * (s.x - t682))), (s.y - ((2 : α) * (s.y - t682))), (s.z - ((2 : α) * (s.z - t682)))⟩
   else
-    ⟨(s.x - ((2 : α) * (s.x - (t616 * t621)))), (s.y - ((2 : α) * (s.y - (t615 * t621)))), (s.z - ((2 : α) * (s.z - (t614 * t621))))⟩
+    ⟨(s.x - ((2 : α) * (s.x - (t694 * t699)))), (s.y - ((2 : α) * (s.y - (t693 * t699)))), (s.z - ((2 : α) * (s.z - (t692 * t699))))⟩
 
 /-- extracted from the C++ template at T = Sym; 4 path(s) -/
 def VecAlgo3.closestVertex {α : Type} [Add α] [Sub α] [Mul α] [LT α] [DecidableLT α] (v0 : V3 α) (v1 : V3 α) (v2 : V3 α) (p : V3 α) : (V3 α) :=
-  let t563 := (v0.y - p.y)
-  let t564 := (v0.x - p.x)
-  let t568 := (v1.y - p.y)
-  let t569 := (v1.x - p.x)
-  let t573 := (v2.y - p.y)
-  let t574 := (v2.x - p.x)
-  let t634 := (v0.z - p.z)
-  let t636 := (((t564 * t564) + (t563 * t563)) + (t634 * t634))
-  let t637 := (v1.z - p.z)
-  let t639 := (((t569 * t569) + (t568 * t568)) + (t637 * t637))
-  let t640 := (v2.z - p.z)
-  let t642 := (((t574 * t574) + (t573 * t573)) + (t640 * t640))
-  if t639 < t636 then
-    if t642 < t639 then
+  let t641 := (v0.y - p.y)
+  let t642 := (v0.x - p.x)
+  let t646 := (v1.y - p.y)
+  let t647 := (v1.x - p.x)
+  let t651 := (v2.y - p.y)
+  let t652 := (v2.x - p.x)
+  let t712 := (v0.z - p.z)
+  let t714 := (((t642 * t642) + (t641 * t641)) + (t712 * t712))
+  let t715 := (v1.z - p.z)
+  let t717 := (((t647 * t647) + (t646 * t646)) + (t715 * t715))
+  let t718 := (v2.z - p.z)
+  let t720 := (((t652 * t652) + (t651 * t651)) + (t718 * t718))
+  if t717 < t714 then
+    if t720 < t717 then
       ⟨v2.x, v2.y, v2.z⟩
     else
       ⟨v1.x, v1.y, v1.z⟩
   else
-    if t642 < t636 then
+    if t720 < t714 then
       ⟨v2.x, v2.y, v2.z⟩
     else
       ⟨v0.x, v0.y, v0.z⟩
 
 /-- extracted from the C++ template at T = Sym; 2 path(s) -/
 def VecAlgo4.project {α : Type} [Add α] [Mul α] [Div α] [Neg α] [LT α] [LE α] [DecidableLT α] [DecidableLE α] [DecidableEq α] [OfNat α 0] [OfNat α 2] (tmin : α) (tmax : α) (sqrt : α → α) (s : V4 α) (t : V4 α) : (V4 α) :=
-  let t645 := (V4.length tmin tmax sqrt ⟨s.x, s.y, s.z, s.w⟩)
-  let t648 := ((0 : α) * (((((0 : α) * t.x) + ((0 : α) * t.y)) + ((0 : α) * t.z)) + ((0 : α) * t.w)))
-  let t649 := (s.w / t645)
-  let t650 := (s.z / t645)
-  let t651 := (s.y / t645)
-  let t652 := (s.x / t645)
-  let t659 := ((((t652 * t.x) + (t651 * t.y)) + (t650 * t.z)) + (t649 * t.w))
-  if t645 = (0 : α) then
-    ⟨t648, t648, t648, t648⟩
+  let t723 := (V4.length tmin tmax sqrt ⟨s.x, s.y, s.z, s.w⟩)
+  let t726 := ((0 : α) * (((((0 : α) * t.x) + ((0 : α) * t.y)) + ((0 : α) * t.z)) + ((0 : α) * t.w)))
+  let t727 := (s.w / t723)
+  let t728 := (s.z / t723)
+  let t729 := (s.y / t723)
+  let t730 := (s.x / t723)
+  let t737 := ((((t730 * t.x) + (t729 * t.y)) + (t728 * t.z)) + (t727 * t.w))
+  if t723 = (0 : α) then
+    ⟨t726, t726, t726, t726⟩
   else
-    ⟨(t652 * t659), (t651 * t659), (t650 * t659), (t649 * t659)⟩
+    ⟨(t730 * t737), (t729 * t737), (t728 * t737), (t727 * t737)⟩
 
 /-- extracted from the C++ template at T = Sym; 2 path(s) -/
 def VecAlgo4.orthogonal {α : Type} [Add α] [Sub α] [Mul α] [Div α] [Neg α] [LT α] [LE α] [DecidableLT α] [DecidableLE α] [DecidableEq α] [OfNat α 0] [OfNat α 2] (tmin : α) (tmax : α) (sqrt : α → α) (s : V4 α) (t : V4 α) : (V4 α) :=
-  let t645 := (V4.length tmin tmax sqrt ⟨s.x, s.y, s.z, s.w⟩)
-  let t648 := ((0 : α) * (((((0 : α) * t.x) + ((0 : α) * t.y)) + ((0 : α) * t.z)) + ((0 : α) * t.w)))
-  let t649 := (s.w / t645)
-  let t650 := (s.z / t645)
-  let t651 := (s.y / t645)
-  let t652 := (s.x / t645)
-  let t659 := ((((t652 * t.x) + (t651 * t.y)) + (t650 * t.z)) + (t649 * t.w))
-  if t645 = (0 : α) then
-    ⟨(t.x - t648), (t.y - t648), (t.z - t648), (t.w - t648)⟩
+  let t723 := (V4.length tmin tmax sqrt ⟨s.x, s.y, s.z, s.w⟩)
+  let t726 := ((0 : α) * (((((0 : α) * t.x) + ((0 : α) * t.y)) + ((0 : α) * t.z)) + ((0 : α) * t.w)))
+  let t727 := (s.w / t723)
+  let t728 := (s.z / t723)
+  let t729 := (s.y / t723)
+  let t730 := (s.x / t723)
+  let t737 := ((((t730 * t.x) + (t729 * t.y)) + (t728 * t.z)) + (t727 * t.w))
+  if t723 = (0 : α) then
+    ⟨(t.x - t726), (t.y - t726), (t.z - t726), (t.w - t726)⟩
   else
-    ⟨(t.x - (t652 * t659)), (t.y - (t651 * t659)), (t.z - (t650 * t659)), (t.w - (t649 * t659))⟩
+    ⟨(t.x - (t730 * t737)), (t.y - (t729 * t737)), (t.z - (t728 * t737)), (t.w - (t727 * t737))⟩
 
 /-- extracted from the C++ template at T = Sym; 2 path(s) -/
 def VecAlgo4.reflect {α : Type} [Add α] [Sub α] [Mul α] [Div α] [Neg α] [LT α] [LE α] [DecidableLT α] [DecidableLE α] [DecidableEq α] [OfNat α 0] [OfNat α 2] (tmin : α) (tmax : α) (sqrt : α → α) (s : V4 α) (t : V4 α) : (V4 α) :=
-  let t672 := (V4.length tmin tmax sqrt ⟨t.x, t.y, t.z, t.w⟩)
-  let t675 := ((0 : α) * (((((0 : α) * s.x) + ((0 : α) * s.y)) + ((0 : α) * s.z)) + ((0 : α) * s.w)))
-  let t688 := (t.w / t672)
-  let t689 := (t.z / t672)
-  let t690 := (t.y / t672)
-  let t691 := (t.x / t672)
-  let t698 := ((((t691 * s.x) + (t690 * s.y)) + (t689 * s.z)) + (t688 * s.w))
-  if t672 = (0 : α) then
-    ⟨(s.x - ((2 : α) * (s.x - t675))), (s.y - ((2 : α) * (s.y - t675))), (s.z - ((2 : α) * (s.z - t675))), (s.w - ((2 : α) * (s.w - t675)))⟩
+  let t750 := (V4.length tmin tmax sqrt ⟨t.x, t.y, t.z, t.w⟩)
+  let t753 := ((0 : α) * (((((0 : α) * s.x) + ((0 : α) * s.y)) + ((0 : α) * s.z)) + ((0 : α) * s.w)))
+  let t766 := (t.w / t750)
+  let t767 := (t.z / t750)
+  let t768 := (t.y / t750)
+  let t769 := (t.x / t750)
+  let t776 := ((((t769 * s.x) + (t768 * s.y)) + (t767 * s.z)) + (t766 * s.w))
+  if t750 = (0 : α) then
+    ⟨(s.x - ((2 : α) * (s.x - t753))), (s.y - ((2 : α) * (s.y - t753))), (s.z - ((2 : α) * (s.z - t753))), (s.w - ((2 : α) * (s.w - t753)))⟩
   else
-    ⟨(s.x - ((2 : α) * (s.x - (t691 * t698)))), (s.y - ((2 : α) * (s.y - (t690 * t698)))), (s.z - ((2 : α) * (s.z - (t689 * t698)))), (s.w - ((2 : α) * (s.w - (t688 * t698))))⟩
+    ⟨(s.x - ((2 : α) * (s.x - (t769 * t776)))), (s.y - ((2 : α) * (s.y - (t768 * t776)))), (s.z - ((2 : α) * (s.z - (t767 * t776)))), (s.w - ((2 : α) * (s.w - (t766 * t776))))⟩
 
 /-- extracted from the C++ template at T = Sym; 4 path(s) -/
 def VecAlgo4.closestVertex {α : Type} [Add α] [Sub α] [Mul α] [LT α] [DecidableLT α] (v0 : V4 α) (v1 : V4 α) (v2 : V4 α) (p : V4 α) : (V4 α) :=
-  let t563 := (v0.y - p.y)
-  let t564 := (v0.x - p.x)
-  let t568 := (v1.y - p.y)
-  let t569 := (v1.x - p.x)
-  let t573 := (v2.y - p.y)
-  let t574 := (v2.x - p.x)
-  let t634 := (v0.z - p.z)
-  let t637 := (v1.z - p.z)
-  let t640 := (v2.z - p.z)
-  let t719 := (v0.w - p.w)
-  let t721 := ((((t564 * t564) + (t563 * t563)) + (t634 * t634)) + (t719 * t719))
-  let t722 := (v1.w - p.w)
-  let t724 := ((((t569 * t569) + (t568 * t568)) + (t637 * t637)) + (t722 * t722))
-  let t725 := (v2.w - p.w)
-  let t727 := ((((t574 * t574) + (t573 * t573)) + (t640 * t640)) + (t725 * t725))
-  if t724 < t721 then
-    if t727 < t724 then
+  let t641 := (v0.y - p.y)
+  let t642 := (v0.x - p.x)
+  let t646 := (v1.y - p.y)
+  let t647 := (v1.x - p.x)
+  let t651 := (v2.y - p.y)
+  let t652 := (v2.x - p.x)
+  let t712 := (v0.z - p.z)
+  let t715 := (v1.z - p.z)
+  let t718 := (v2.z - p.z)
+  let t797 := (v0.w - p.w)
+  let t799 := ((((t642 * t642) + (t641 * t641)) + (t712 * t712)) + (t797 * t797))
+  let t800 := (v1.w - p.w)
+  let t802 := ((((t647 * t647) + (t646 * t646)) + (t715 * t715)) + (t800 * t800))
+  let t803 := (v2.w - p.w)
+  let t805 := ((((t652 * t652) + (t651 * t651)) + (t718 * t718)) + (t803 * t803))
+  if t802 < t799 then
+    if t805 < t802 then
       ⟨v2.x, v2.y, v2.z, v2.w⟩
     else
       ⟨v1.x, v1.y, v1.z, v1.w⟩
   else
-    if t727 < t721 then
+    if t805 < t799 then
       ⟨v2.x, v2.y, v2.z, v2.w⟩
     else
       ⟨v0.x, v0.y, v0.z, v0.w⟩
